@@ -129,8 +129,8 @@ def r3(ctx):
         nodes = path_nodes(p)
         susp = [x for x in nodes if isinstance(x, ast.Call) and self_call(x) == "suspend_task"]
         inst = [x for x in nodes if isinstance(x, ast.Call) and self_call(x) == "install_task"]
-        if feasible(p, ev, {"self.isScheduled": True}) and not feasible(p, ev, {"self.isScheduled": False}):
-            ctx.check("Subscription.renew_subscription:stops-old-timer", len(susp) == 1, where(m, f), "the running lifetime timer must be stopped on renewal")
+        if feasible(p, ev, {"self.isScheduled": True}):
+            ctx.check("Subscription.renew_subscription:stops-old-timer", len(susp) == 1, where(m, f), "the running lifetime timer must be stopped on renewal (a renewal as permanent would otherwise still expire)")
         if feasible(p, ev, {lt: 60}) and not feasible(p, ev, {lt: 0}):
             ok = len(inst) == 1 and {k.arg: norm(k.value) for k in inst[0].keywords} == {"delta": lt}
             ctx.check("Subscription.renew_subscription:re-times", ok, where(m, f), "a non-zero lifetime must install the timer for the new lifetime")
